@@ -53,6 +53,12 @@ SHIPPED_CASES = [
     # shared root `all.internal.stateless.noop`
     ("only all..noop,leaves..tutorial1\n", {"vm1": "only CentOS\n", "vm2": "only Win10\n", "vm3": "only Ubuntu\n"},
      ["net1"], "eager"),
+    # a multi-valued vm restriction written with unusual but legal blanks around the comma (the Cartesian parser accepts
+    # any): both variants of vm1 stay selected for every worker
+    ("only normal..tutorial1\n", {"vm1": "only CentOS,  Fedora\n", "vm2": "only Win10\n", "vm3": "only Ubuntu\n"},
+     ["net1", "net4"], "eager"),
+    ("only normal..tutorial1\n", {"vm1": "only Fedora , CentOS\n", "vm2": "only Win10\n", "vm3": "only Ubuntu\n"},
+     ["net2"], "lazy"),
 ]
 
 
